@@ -81,6 +81,35 @@ CHECKS["C10"] = dict(
    note="n > 3 only through identity residuals; RK4 exactness decided on fields where every order-4 four-stage method is exact plus an order test on one nonlinear field. Not decided: values between lattice points.",
 )
 
+CHECKS["C11"] = dict(
+   technique="TLA+ spec EstimatorStep.tla (step contracts; measurements generated in the spec from the true attitude and proven consistent by TLC; exact post-attitude Q(x)h for predict) model-checked by TLC and replayed into initialize/predict/correct_accel/correct_mag; the same contracts evaluated by TLC trace validation (AttitudeLoopTrace.tla) on every estimator step of recorded closed-loop runs",
+   category="model_checking",
+   text="TLC enumerates attitudes (integer quaternions incl. 180 degrees), declinations/inclinations on Pythagorean angles, biases, five covariance factors, step sizes 1-20 ms, rotation-per-step elements up to 0.4 rad, accelerometer magnitudes on both sides of and exactly on the rejection gate plus grossly wrong ones, tilted and yawed measurement directions. Contracts checked on the real CasADi functions: initialize returns the attitude that produced the (spec-generated, exact) measurements or a non-zero code, never NaN; predict keeps |mrp| <= 1, W lower triangular/finite, bias constant and the attitude within 1e-9 + 0.01 theta^5 of the exact Q(x)h; a rejected correction returns x and W bit-for-bit; an accepted one is finite with P - P+ PSD; gross accelerometer magnitudes are rejected. Vacuity guard: every outcome (accept/reject per function) must occur. The recorded closed-loop runs add thousands of real steps validated by the trace spec.",
+   design_ref="6/C11",
+   note="Fourth-order accuracy is an error bound at lattice steps, not an asymptotic order; P+ <= P decided numerically. Gate positions are implementation detail (SPEC-DRIFT only).",
+)
+CHECKS["C12"] = dict(
+   technique="TLA+ specs AttitudeLoop.tla (configuration lattice with the 'box' made precise, enumerated by TLC) and AttitudeLoopTrace.tla (phase envelope, measurement model, step contracts and non-vacuity as a monitor evaluated by TLC on every line of NDJSON traces recorded from the real launch_sim) - trace validation, code -> spec",
+   category="model_checking",
+   text="Each chosen configuration of the TLC lattice (true attitude, gyro bias, initialise-or-zero start, declination/inclination, three rate settings; stratified sample seeded by VERIF_SEED: 12 quick / 160 thorough) is one real 20 s launch_sim run with recording proxies around the estimator equations. TLC consumes the whole history (about 8-14k lines per run): no NaN/exception, accelerometer and magnetometer magnitudes and directions equal to the truth-rotated references to 1e-6, attitude error <= 0.03 rad from 5 s on, every bias component error <= max(0.01, initial/4) from 15 s on, initialisation by the second IMU message, at least one accepted accel and mag correction per second (non-vacuity), plus the C11 step contracts at every step. A self-test corrupts recorded fields / drops lines / truncates a trace and requires rejection.",
+   design_ref="6/C12",
+   note="Monitoring, not prediction: nothing is claimed about configurations that were not executed. Envelope constants are read off the property text, not tuned.",
+)
+CHECKS["C16"] = dict(
+   technique="TLA+ spec Quadrotor.tla (Newton-Euler rotor-sum dynamics in exact rational arithmetic, sqrt(2) and rotor-speed unit carried symbolically; ten physical laws as TLC invariants) model-checked by TLC; every state replayed into quadrotor.derive_model() f, g_accel, g_gyro over default and non-default parameter sets",
+   category="model_checking",
+   text="TLC proves on every enumerated state (rational unit quaternions, integer/dyadic velocities, rates, rotor speeds, commands; default + 3 (quick) / 5 (thorough) non-default parameter sets incl. asymmetric frames and tau_up != tau_down): q.q' = 0, hover equilibrium, free-fall accelerometer, world-frame Newton, Euler + power identity, lever direction, symmetric-frame zero moment, yaw/translation equivariance, motor lag law. Each state is compared entry-wise (1e-9) with the real model and the property clauses are re-evaluated directly on the code's outputs (incl. equivariance code-vs-code and both sides of the tau switch).",
+   design_ref="6/C16",
+   note="Rational lattice only; drag/aero terms, ground contact (finiteness only), negative rotor speeds not covered. Built by a sub-task; 13 code mutations detected.",
+)
+CHECKS["C18"] = dict(
+   technique="TLA+ spec Bezier.tla (Bernstein = De Casteljau = monomial, derivative control points = power-rule derivative for every order, Hermite control points as unique solution of all boundary conditions; exact rationals) model-checked by TLC; every state replayed into Bezier.eval/deriv, bezier3/7_solve, bezier3/7_traj, bezier_multirotor",
+   category="model_checking",
+   text="TLC checks in exact rational arithmetic, for degrees 0..7, dimensions 1..3, every derivative order m <= n, durations {1,2,5/2} and times inside and outside [0,T], that the four characterisations of the m-th derivative agree, end-point interpolation, and that the closed-form cubic/septic Hermite control points meet all 4/8 boundary conditions (boundary-functional matrix block-triangular, solution unique). Each state is replayed two-sided at 1e-9 into the real code; solver output is judged by the TLC-proved boundary functionals and independently by the code's own trajectory at 0 and T; mutual consistency of multirotor outputs by AD in t.",
+   design_ref="6/C18",
+   note="Lattice: integer control points/boundary values in -3..3. Degrees > 7, numeric (non-symbolic) T not covered. Built by a sub-task; 9 code mutations detected.",
+)
+
 NOT_YET = {}
 
 ALL = [f"C{i:02d}" for i in range(1, 21)]
